@@ -113,6 +113,9 @@ func VerifyFunc(prog *Program, fi *FuncInfo, tier string) (res *UnitResult) {
 	u.atAsserts = map[*ast.CallExpr][]*Clause{}
 	if u.con != nil {
 		for _, c := range u.con.Asserts {
+			if c.At == "return" {
+				continue
+			}
 			if site, ok := findCallSite(prog, fi, c.At).(*ast.CallExpr); ok {
 				u.atAsserts[site] = append(u.atAsserts[site], c)
 			}
@@ -217,6 +220,12 @@ func (u *Unit) checkPost(st *State, vals []Val, ord int) {
 			name = "post#" + c.Label
 		}
 		u.oblige(st, name, "post", g, u.clauseProps(c), c, "postcondition: "+c.Text, nil)
+	}
+	for _, c := range u.con.Asserts {
+		if c.At == "return" {
+			g := u.evalClause(c, st, u.entry, nil, nil)
+			u.oblige(st, "at#return#"+fmt.Sprint(c.Line), "assert", g, u.clauseProps(c), c, "assertion at every normal return: "+c.Text, nil)
+		}
 	}
 	u.checkFrameAtExit(st)
 	u.cover(st, "cover#return", "some return is reachable")
